@@ -81,6 +81,10 @@ func extendCmd(r *Rand, c string) string {
 		return c
 	}
 	s := Pick(r, cmdSegments)
+	if r.Chance(0.06) {
+		// an empty interior segment ("/a//b") is a valid command and a segment like any other
+		s = "/" + s
+	}
 	if c == "/" {
 		return "/" + s
 	}
@@ -100,8 +104,15 @@ func notCovered(r *Rand, base string) (string, string) {
 	} else {
 		prefix = "/" + strings.Join(segs[:len(segs)-1], "/")
 	}
-	kinds := []string{"parent", "sibling", "textprefix", "top"}
+	kinds := []string{"parent", "sibling", "textprefix", "top", "emptyseg", "emptyseg"}
 	switch Pick(r, kinds) {
+	case "emptyseg":
+		// the same command with one slash doubled: another segment list, neither covers the other
+		if len(segs) >= 2 {
+			i := 1 + r.Intn(len(segs)-1)
+			return "/" + strings.Join(segs[:i], "/") + "//" + strings.Join(segs[i:], "/"), "emptyseg"
+		}
+		return "//" + strings.Join(segs, "/"), "emptyseg"
 	case "parent":
 		if len(segs) == 1 {
 			return "/", "top"
@@ -459,7 +470,7 @@ func (g *wgen) buildChain(n int, tcSec int64, args []KV) *chain {
 		var none *int64
 		g.bounds(&none, &c.inv.Exp, tcSec)
 	}
-	c.inv.Iat = []string{"", "", "none", "past", "future"}[r.Intn(5)]
+	c.inv.Iat = []string{"", "", "none", "past", "future", "zero", "epoch", "y2300"}[r.Intn(8)]
 	c.inv.NonceLen = []int{0, 0, 0, 12, 16, 32}[r.Intn(6)]
 	c.inv.Meta = genMeta(r)
 	c.inv.Cause = r.Chance(0.2)
